@@ -727,7 +727,7 @@ def oracle_C10(scn, tr):
     # the handler is re-invoked after a non-terminal code only while no variable callback fails
     exp_acts, exp_calls = ref_response(kind, uns, codes)
     if vfail:
-        return []          # judged by oracle_C10_var below
+        return oracle_C10_var(scn, tr, uns)
     if len(calls) != exp_calls and exp_acts[-1] != 'hold':
         fails.append('handler kind %s: script %s asks for %d invocations, observed %d' % (tag, codes[:exp_calls], exp_calls, len(calls)))
         return fails
@@ -772,6 +772,37 @@ def oracle_C10(scn, tr):
             if codes[i - 1] in (RC['NEXT'], RC['DATA_NEXT']):
                 if calls[i][4:6] != calls[0][4:6]:
                     fails.append('after code %d the handler was re-invoked on %r, the freshly formatted buffer is %r' % (codes[i - 1], unhex(calls[i][4]), unhex(calls[0][4])))
+    return fails
+
+
+def oracle_C10_var(scn, tr, uns):
+    """family rc, a variable callback of command 0 returned non-zero: the command is aborted with ERROR (event:
+    silently) before any command handler runs, no further callback, no data unit"""
+    fails = []
+    idx = next(i for i, l in enumerate(tr) if l.startswith('V ') and int(l.split()[2]) == 0 and not l.endswith('-> 0'))
+    bad = tr[idx]
+    later = [l for l in tr[idx + 1:] if (l.startswith('H ') and call_ci(l.split()) == 0) or (l.startswith('V ') and int(l.split()[2]) == 0)]
+    # only the rest of THIS line/event counts: stop at the next fed input or trigger
+    rest = []
+    for l in tr[idx + 1:]:
+        if l.startswith('> f ') or l.startswith('> t '):
+            break
+        rest.append(l)
+    later = [l for l in rest if (l.startswith('H ') and call_ci(l.split()) == 0) or (l.startswith('V ') and int(l.split()[2]) == 0)]
+    if later:
+        fails.append('variable callback failed (%s) but the command went on: %s' % (bad, later[0]))
+    norm = lambda b: bytes(x for x in b if x != 13)
+    if uns:
+        out = norm(out_bytes(rest))
+        if out and not any(l.startswith('> f ') for l in tr):
+            fails.append('variable callback of an event failed (%s) but output %r was produced' % (bad, out))
+    else:
+        lines, problems, pending = segment(scn, tr)
+        if lines and lines[0].result is not None:
+            if lines[0].result != 'ERROR':
+                fails.append('variable callback failed (%s) but the line was answered %s' % (bad, lines[0].result))
+            elif norm(out_bytes(rest)) != b'\nERROR\n' and fully_drained(scn, tr):
+                fails.append('variable callback failed (%s) but data was emitted after it: %r' % (bad, norm(out_bytes(rest))))
     return fails
 
 
@@ -925,7 +956,7 @@ def oracle_C13(scn, tr):
                 fails.append('cat_is_unsolicited_buffer_full says not full although %d events wait (capacity %d)' % (depth_lo, cap))
             if st == -5 and depth_hi < cap:
                 fails.append('cat_is_unsolicited_buffer_full says full although at most %d of %d slots can be occupied' % (depth_hi, cap))
-    if (scn.meta.get('family') == 'units' or scn.name.startswith('un')) and not event_side_hold(tr):
+    if (scn.meta.get('family') in ('units', 'mxev') or scn.name.startswith('un') or scn.name.startswith('mx')) and not event_side_hold(tr):
         fails += fifo_exactly_once(scn, tr)
     # observers at points where the truth is known: right after cat_service returned OK the event machine is
     # idle and the queue is empty, until the next trigger
@@ -948,34 +979,58 @@ def oracle_C13(scn, tr):
 
 
 def fifo_exactly_once(scn, tr):
-    """family 'units': every event command has read and test handlers, so each event taken from the queue is
-    visible as a (group of) event-side handler call(s).  Started events must equal the accepted triggers:
-    same order, each exactly once, nothing that was refused."""
-    accepted, started = [], []
+    """families 'units' / 'mxev': every event command has read and test handlers, so each event taken from the
+    queue is visible as a (group of) event-side handler call(s).  Started events must equal the accepted triggers:
+    same order, each exactly once, nothing that was refused.  A trigger that returned ERROR_MUTEX_UNLOCK ran its
+    body before the unlock failed: it may or may not have been queued (it was iff the queue was not full at that
+    moment, which the trace does not show exactly), so such events are optional in the expected sequence."""
+    started = []
     prev_terminal = True
     for l in tr:
         t = l.split()
-        if (t[0] == '=' and t[1] == 't') or (t[0] == 'I' and t[1] == 't'):
-            continue
-        if t[0] == '>' and t[1] == 't':
-            last_trigger = (int(t[2]), int(t[3]))
         if t[0] == 'H' and t[1] in ('r', 't') and t[2] == '1':
             code = int(t[-1])
             if prev_terminal:
                 started.append((int(t[3]), 1 if t[1] == 'r' else 3))
             prev_terminal = code not in (1, 2)
-    # accepted triggers: '> t ci ty' followed by '= t 0'; inner 'I t ci ty = 0'
-    last = None
+    # triggers in order: (event, 'must' | 'may')
+    trig, last = [], None
     for l in tr:
         t = l.split()
         if t[0] == '>' and t[1] == 't':
             last = (int(t[2]), int(t[3]))
         elif t[0] == '=' and t[1] == 't':
-            if int(t[2]) == 0 and last is not None:
-                accepted.append(last)
+            stt = int(t[2])
+            if last is not None and stt == 0:
+                trig.append((last, 'must'))
+            elif last is not None and stt == -2:
+                trig.append((last, 'may'))
             last = None
         elif t[0] == 'I' and t[1] == 't' and int(t[5]) == 0:
-            accepted.append((int(t[2]), int(t[3])))
+            trig.append(((int(t[2]), int(t[3])), 'must'))
+    accepted = [e for e, m in trig if m == 'must']
+    # does `started` match the trigger sequence with the optional ones freely included or skipped?
+    import functools, sys
+    sys.setrecursionlimit(10000)
+    drained = fully_drained(scn, tr)
+
+    @functools.lru_cache(maxsize=None)
+    def ok(i, j):
+        """triggers from i on can explain started[j:] (all of it if drained, a prefix situation otherwise)"""
+        if j == len(started):
+            return (not drained) or all(m == 'may' for _, m in trig[i:])
+        if i == len(trig):
+            return False
+        e, m = trig[i]
+        if e == started[j] and ok(i + 1, j + 1):
+            return True
+        return m == 'may' and ok(i + 1, j)
+    if not any(m == 'may' for _, m in trig):
+        pass           # plain case handled below with a precise message
+    elif not ok(0, 0):
+        return ['the events taken for processing %r cannot be explained by the triggers %r (must = returned OK, may = returned ERROR_MUTEX_UNLOCK after its body ran): lost, duplicated or reordered' % (started[:8], trig[:10])]
+    else:
+        return []
     fails = []
     # the observer cat_is_unsolicited_event_buffered, judged where the truth is known: walk the trace again,
     # keeping the accepted list and the number of events already taken for processing
